@@ -190,6 +190,34 @@ func conform(sh *explore.Shard, prop string, owned []string, sc *gen.Scenario) {
 		herr("cat-file --batch differs (%d vs %d bytes)", len(ro), len(mo))
 		return
 	}
+	// 3b. noise that must not be counted: a reflog entry and an index that
+	// reach objects no root reaches (HEAD may already be detached on such a commit)
+	{
+		var noiseCommit, noiseTree mrepo.ID
+		for _, id := range sc.Repo.Order {
+			o := sc.Repo.Objects[id]
+			if orc.Reach[id] || o.Virtual {
+				continue
+			}
+			if o.Kind == mrepo.Commit && noiseCommit == "" {
+				noiseCommit = id
+			}
+			if o.Kind == mrepo.Tree && noiseTree == "" {
+				noiseTree = id
+			}
+		}
+		if noiseCommit != "" {
+			os.MkdirAll(filepath.Join(gd, "logs"), 0o755)
+			line := fmt.Sprintf("%s %s V Erif <v@example.com> 1000000000 +0000\tcheckout: moving\n", strings.Repeat("0", 40), noiseCommit)
+			os.WriteFile(filepath.Join(gd, "logs", "HEAD"), []byte(line), 0o644)
+			sh.C.Add("noise_reflog_cases", 1)
+		}
+		if noiseTree != "" {
+			if _, err := realgit.RunPlain(gd, []string{"GIT_DIR=" + gd}, "read-tree", string(noiseTree)); err == nil {
+				sh.C.Add("noise_index_cases", 1)
+			}
+		}
+	}
 	// 4. the real CLI with real git against the oracle
 	args := append([]string{"--json", "--no-progress", "--names=none"}, sizerArgs(sc)...)
 	res := cli.Run(gd, "", nil, 60*time.Second, args...)
